@@ -28,6 +28,11 @@
 (*                    handler context ends), ServeTCP returns an error.    *)
 (*                    Connections that are still open are NOT closed by    *)
 (*                    ServeTCP: they end by EOF / timeout / garbage / nil. *)
+(*   Stall(c) / Unstall(c)  ENVIRONMENT: the client stops / resumes        *)
+(*                    reading; PartialWrite(q): a server that arms write   *)
+(*                    deadlines returns from Write after a part of the     *)
+(*                    frame - then nothing more may be written on that     *)
+(*                    connection, it must be closed (TruncClose)           *)
 (*   client (ENVIRONMENT): Send (whole frame), SendPart + SendRest (frame  *)
 (*   delivered in two instalments with arbitrary events between), Garbage, *)
 (*   HalfClose, TimerFire (the armed read deadline passes).                *)
@@ -45,6 +50,7 @@ EXTENDS Naturals, Sequences, FiniteSets, TLC, Json
 CONSTANTS
     Conns, Ids, Mode, WithHist,
     GenLen,    \* generator: number of logged steps per exported behaviour
+    WithWDL,   \* the server may arm write deadlines (PartialWrite possible); FALSE in the generator cfgs
     MaxG,      \* bound: garbage units a client sends per connection
     DEV        \* deviation switch for the non-vacuity runs; "none" = the design
 
@@ -63,10 +69,13 @@ VARIABLES
     qst,      \* [Ids -> "unsent" | "part" | "sent" | "read" | "running" | "replied" | "nil" | "written" | "failed" | "aborted"]
     wr,       \* history: [Ids -> Nat] reply frames written
     ng,       \* [Conns -> Nat] garbage units sent (bound only)
+    stalled,  \* [Conns -> BOOLEAN] the client has stopped reading (a Write cannot complete)
+    trunc,    \* [Conns -> BOOLEAN] a reply frame was written only in part (write deadline passed)
+    wat,      \* history: [Conns -> BOOLEAN] something was written behind a truncated frame
     late,     \* history: [Conns -> BOOLEAN] a message was read after the connection goroutine had to give up
     hist
 
-vars == <<lst, cst, cl, pend, part, rpc, nread, dl, fired, cctx, qc, qst, wr, ng, late, hist>>
+vars == <<lst, cst, cl, pend, part, rpc, nread, dl, fired, cctx, qc, qst, wr, ng, stalled, trunc, wat, late, hist>>
 H(e) == hist' = IF WithHist THEN Append(hist, e) ELSE hist
 
 TCP == Mode = "tcp"
@@ -90,6 +99,7 @@ Init ==
     /\ wr = [q \in Ids |-> 0]
     /\ late = [c \in Conns |-> FALSE]
     /\ ng = [c \in Conns |-> 0]
+    /\ stalled = [c \in Conns |-> FALSE] /\ trunc = [c \in Conns |-> FALSE] /\ wat = [c \in Conns |-> FALSE]
     /\ hist = <<>>
 
 CtxDone(c) == cctx[c] \/ lst = "returned"
@@ -103,21 +113,21 @@ Accept(c) ==
     /\ TCP /\ lst = "open" /\ cst[c] = "unborn"
     /\ cst' = [cst EXCEPT ![c] = "open"] /\ rpc' = [rpc EXCEPT ![c] = "arm"]
     /\ H([a |-> "Accept", c |-> c])
-    /\ UNCHANGED <<lst, cl, pend, part, nread, dl, fired, cctx, qc, qst, wr, ng, late>>
+    /\ UNCHANGED <<lst, cl, pend, part, nread, dl, fired, cctx, qc, qst, wr, ng, stalled, trunc, wat, late>>
 
 Send(c, q) ==
     /\ ClientUp(c) /\ part[c] = 0 /\ qst[q] = "unsent"
     /\ qst' = [qst EXCEPT ![q] = "sent"] /\ qc' = [qc EXCEPT ![q] = c]
     /\ pend' = [pend EXCEPT ![c] = Append(@, TokQ(q))]
     /\ H([a |-> "Send", c |-> c, q |-> q])
-    /\ UNCHANGED <<lst, cst, cl, part, rpc, nread, dl, fired, cctx, wr, ng, late>>
+    /\ UNCHANGED <<lst, cst, cl, part, rpc, nread, dl, fired, cctx, wr, ng, stalled, trunc, wat, late>>
 
 SendPart(c, q) ==
     /\ TCP /\ ClientUp(c) /\ part[c] = 0 /\ qst[q] = "unsent"
     /\ qst' = [qst EXCEPT ![q] = "part"] /\ qc' = [qc EXCEPT ![q] = c]
     /\ part' = [part EXCEPT ![c] = q]
     /\ H([a |-> "SendPart", c |-> c, q |-> q])
-    /\ UNCHANGED <<lst, cst, cl, pend, rpc, nread, dl, fired, cctx, wr, ng, late>>
+    /\ UNCHANGED <<lst, cst, cl, pend, rpc, nread, dl, fired, cctx, wr, ng, stalled, trunc, wat, late>>
 
 SendRest(c) ==
     /\ TCP /\ ClientUp(c) /\ part[c] # 0
@@ -125,13 +135,13 @@ SendRest(c) ==
     /\ pend' = [pend EXCEPT ![c] = Append(@, TokQ(part[c]))]
     /\ part' = [part EXCEPT ![c] = 0]
     /\ H([a |-> "SendRest", c |-> c, q |-> part[c]])
-    /\ UNCHANGED <<lst, cst, cl, rpc, nread, dl, fired, cctx, qc, wr, ng, late>>
+    /\ UNCHANGED <<lst, cst, cl, rpc, nread, dl, fired, cctx, qc, wr, ng, stalled, trunc, wat, late>>
 
 Garbage(c) ==
     /\ ClientUp(c) /\ part[c] = 0 /\ ng[c] < MaxG
     /\ pend' = [pend EXCEPT ![c] = Append(@, TokG)] /\ ng' = [ng EXCEPT ![c] = @ + 1]
     /\ H([a |-> "Garbage", c |-> c])
-    /\ UNCHANGED <<lst, cst, cl, part, rpc, nread, dl, fired, cctx, qc, qst, wr, late>>
+    /\ UNCHANGED <<lst, cst, cl, part, rpc, nread, dl, fired, cctx, qc, qst, wr, stalled, trunc, wat, late>>
 
 \* the client closes its sending side (possibly in the middle of a frame)
 HalfClose(c) ==
@@ -139,24 +149,36 @@ HalfClose(c) ==
     /\ cl' = [cl EXCEPT ![c] = "eof"]
     /\ pend' = [pend EXCEPT ![c] = Append(@, TokE)]
     /\ H([a |-> "HalfClose", c |-> c])
-    /\ UNCHANGED <<lst, cst, part, rpc, nread, dl, fired, cctx, qc, qst, wr, ng, late>>
+    /\ UNCHANGED <<lst, cst, part, rpc, nread, dl, fired, cctx, qc, qst, wr, ng, stalled, trunc, wat, late>>
 
 TimerFire(c) ==
     /\ TCP /\ cst[c] = "open" /\ dl[c] # "none" /\ ~fired[c]
     /\ fired' = [fired EXCEPT ![c] = TRUE]
     /\ H([a |-> "TimerFire", c |-> c])
-    /\ UNCHANGED <<lst, cst, cl, pend, part, rpc, nread, dl, cctx, qc, qst, wr, ng, late>>
+    /\ UNCHANGED <<lst, cst, cl, pend, part, rpc, nread, dl, cctx, qc, qst, wr, ng, stalled, trunc, wat, late>>
+
+\* the client stops / resumes reading: while it is stalled no Write on c can complete
+Stall(c) ==
+    /\ TCP /\ cst[c] # "unborn" /\ ~stalled[c]
+    /\ stalled' = [stalled EXCEPT ![c] = TRUE]
+    /\ H([a |-> "Stall", c |-> c])
+    /\ UNCHANGED <<lst, cst, cl, pend, part, rpc, nread, dl, fired, cctx, qc, qst, wr, ng, trunc, wat, late>>
+Unstall(c) ==
+    /\ TCP /\ stalled[c]
+    /\ stalled' = [stalled EXCEPT ![c] = FALSE]
+    /\ H([a |-> "Unstall", c |-> c])
+    /\ UNCHANGED <<lst, cst, cl, pend, part, rpc, nread, dl, fired, cctx, qc, qst, wr, ng, trunc, wat, late>>
 
 Release(q, k) ==
     /\ qst[q] = "running" /\ k \in {"reply", "nil"}
     /\ qst' = [qst EXCEPT ![q] = IF k = "reply" THEN "replied" ELSE "nil"]
     /\ H([a |-> "Release", q |-> q, k |-> k])
-    /\ UNCHANGED <<lst, cst, cl, pend, part, rpc, nread, dl, fired, cctx, qc, wr, ng, late>>
+    /\ UNCHANGED <<lst, cst, cl, pend, part, rpc, nread, dl, fired, cctx, qc, wr, ng, stalled, trunc, wat, late>>
 
 ListenerClose ==
     /\ lst = "open" /\ lst' = "closed"
     /\ H([a |-> "ListenerClose"])
-    /\ UNCHANGED <<cst, cl, pend, part, rpc, nread, dl, fired, cctx, qc, qst, wr, ng, late>>
+    /\ UNCHANGED <<cst, cl, pend, part, rpc, nread, dl, fired, cctx, qc, qst, wr, ng, stalled, trunc, wat, late>>
 
 ---------------------------------------------------------------------------
 \* SERVER
@@ -169,13 +191,13 @@ Arm(c) ==
     /\ rpc' = [rpc EXCEPT ![c] = "read"]
     /\ cctx' = [cctx EXCEPT ![c] = @ \/ (DEV = "ctx_early" /\ nread[c] > 0)]
     /\ H([a |-> "Arm", c |-> c, cls |-> ArmClass(c)])
-    /\ UNCHANGED <<lst, cst, cl, pend, part, nread, qc, qst, wr, ng, late>>
+    /\ UNCHANGED <<lst, cst, cl, pend, part, nread, qc, qst, wr, ng, stalled, trunc, wat, late>>
 
 \* SetReadDeadline on a connection a handler has closed meanwhile: no effect
 ArmClosed(c) ==
     /\ TCP /\ rpc[c] = "arm" /\ cst[c] = "closed"
     /\ rpc' = [rpc EXCEPT ![c] = "read"]
-    /\ UNCHANGED <<lst, cst, cl, pend, part, nread, dl, fired, cctx, qc, qst, wr, ng, late, hist>>
+    /\ UNCHANGED <<lst, cst, cl, pend, part, nread, dl, fired, cctx, qc, qst, wr, ng, stalled, trunc, wat, late, hist>>
 
 \* index of the unit the next read consumes
 Heads(c) == IF pend[c] = <<>> THEN {} ELSE IF TCP THEN {1} ELSE 1..Len(pend[c])
@@ -193,14 +215,14 @@ ReadQueryG(c, lateok) ==
          /\ H([a |-> "ReadQuery", c |-> c, q |-> pend[c][i].id])
     /\ nread' = [nread EXCEPT ![c] = @ + 1]
     /\ rpc' = [rpc EXCEPT ![c] = IF TCP THEN "arm" ELSE "read"]
-    /\ UNCHANGED <<lst, cst, cl, part, dl, fired, cctx, qc, wr, ng, late>>
+    /\ UNCHANGED <<lst, cst, cl, part, dl, fired, cctx, qc, wr, ng, stalled, trunc, wat, late>>
 ReadQuery(c) == ReadQueryG(c, FALSE)
 
 \* udp: a malformed datagram is skipped
 SkipBad(c) ==
     /\ ~TCP /\ rpc[c] = "read" /\ cst[c] = "open"
     /\ \E i \in Heads(c) : pend[c][i].k = "garbage" /\ pend' = [pend EXCEPT ![c] = Drop(@, i)]
-    /\ UNCHANGED <<lst, cst, cl, part, rpc, nread, dl, fired, cctx, qc, qst, wr, ng, late, hist>>
+    /\ UNCHANGED <<lst, cst, cl, part, rpc, nread, dl, fired, cctx, qc, qst, wr, ng, stalled, trunc, wat, late, hist>>
 
 \* the read fails: the connection goroutine gives up
 ReadBad(c) ==
@@ -212,46 +234,66 @@ ReadBad(c) ==
              /\ pend' = [pend EXCEPT ![c] = Tail(@)]
     /\ rpc' = [rpc EXCEPT ![c] = IF DEV = "garbage_continues" /\ cst[c] = "open" /\ ~fired[c] THEN "arm" ELSE "exit"]
     /\ late' = [late EXCEPT ![c] = TRUE]     \* from now on nothing may be read from c
-    /\ UNCHANGED <<lst, cst, cl, part, nread, dl, fired, cctx, qc, qst, wr, ng, hist>>
+    /\ UNCHANGED <<lst, cst, cl, part, nread, dl, fired, cctx, qc, qst, wr, ng, stalled, trunc, wat, hist>>
 
 LateRead(c) == late[c]    \* evaluated in the state BEFORE a ReadQuery (see NoReadAfterGiveUp)
 
 ReaderCancel(c) ==
     /\ TCP /\ rpc[c] = "exit" /\ ~cctx[c] /\ DEV # "ctx_not_cancelled"
     /\ cctx' = [cctx EXCEPT ![c] = TRUE]
-    /\ UNCHANGED <<lst, cst, cl, pend, part, rpc, nread, dl, fired, qc, qst, wr, ng, late, hist>>
+    /\ UNCHANGED <<lst, cst, cl, pend, part, rpc, nread, dl, fired, qc, qst, wr, ng, stalled, trunc, wat, late, hist>>
 
 ReaderClose(c) ==
     /\ TCP /\ rpc[c] = "exit" /\ cst[c] = "open"
     /\ cst' = [cst EXCEPT ![c] = "closed"]
     /\ H([a |-> "Close", c |-> c])
-    /\ UNCHANGED <<lst, cl, pend, part, rpc, nread, dl, fired, cctx, qc, qst, wr, ng, late>>
+    /\ UNCHANGED <<lst, cl, pend, part, rpc, nread, dl, fired, cctx, qc, qst, wr, ng, stalled, trunc, wat, late>>
 
 ReaderDone(c) ==
     /\ TCP /\ rpc[c] = "exit" /\ cst[c] = "closed" /\ (cctx[c] \/ DEV = "ctx_not_cancelled")
     /\ rpc' = [rpc EXCEPT ![c] = "done"]
-    /\ UNCHANGED <<lst, cst, cl, pend, part, nread, dl, fired, cctx, qc, qst, wr, ng, late, hist>>
+    /\ UNCHANGED <<lst, cst, cl, pend, part, nread, dl, fired, cctx, qc, qst, wr, ng, stalled, trunc, wat, late, hist>>
 
 Invoke(q) ==
     /\ qst[q] = "read"
     /\ qst' = [qst EXCEPT ![q] = "running"]
     /\ H([a |-> "Invoke", q |-> q, c |-> qc[q]])
-    /\ UNCHANGED <<lst, cst, cl, pend, part, rpc, nread, dl, fired, cctx, qc, wr, ng, late>>
+    /\ UNCHANGED <<lst, cst, cl, pend, part, rpc, nread, dl, fired, cctx, qc, wr, ng, stalled, trunc, wat, late>>
 
 Write(q) ==
     /\ \/ qst[q] = "replied"
        \/ DEV = "write_twice" /\ qst[q] = "written"
-    /\ IF TCP THEN cst[qc[q]] = "open"     \* udp: the write succeeds only before the socket is really closed, i.e.
-              ELSE lst # "returned"         \* before ServeUDP returns (its arrival is observed later: trace spec)
+    /\ IF TCP THEN cst[qc[q]] = "open" /\ ~stalled[qc[q]]     \* udp: the write succeeds only before the socket is really
+              ELSE lst # "returned"         \* closed, i.e. before ServeUDP returns (arrival observed later: trace spec)
+    /\ (TCP /\ trunc[qc[q]]) => DEV = "write_after_trunc"    \* never anything behind a truncated frame
+    /\ wat' = [wat EXCEPT ![qc[q]] = @ \/ (TCP /\ trunc[qc[q]])]
     /\ qst' = [qst EXCEPT ![q] = "written"] /\ wr' = [wr EXCEPT ![q] = @ + 1]
     /\ H([a |-> "Write", q |-> q, c |-> qc[q]])
-    /\ UNCHANGED <<lst, cst, cl, pend, part, rpc, nread, dl, fired, cctx, qc, ng, late>>
+    /\ UNCHANGED <<lst, cst, cl, pend, part, rpc, nread, dl, fired, cctx, qc, ng, stalled, trunc, late>>
+
+\* a server that arms write deadlines (the present code does not): the client is stalled, the deadline passes, Write
+\* returns after a PART of the frame.  Optional (not part of Server: no fairness, not counted by ServerQuiet).
+PartialWrite(q) ==
+    /\ TCP /\ WithWDL /\ qst[q] = "replied" /\ cst[qc[q]] = "open" /\ stalled[qc[q]]
+    /\ trunc[qc[q]] => DEV = "write_after_trunc"
+    /\ wat' = [wat EXCEPT ![qc[q]] = @ \/ trunc[qc[q]]]
+    /\ trunc' = [trunc EXCEPT ![qc[q]] = TRUE]
+    /\ qst' = [qst EXCEPT ![q] = "failed"]
+    /\ H([a |-> "PartialWrite", q |-> q, c |-> qc[q]])
+    /\ UNCHANGED <<lst, cst, cl, pend, part, rpc, nread, dl, fired, cctx, qc, wr, ng, stalled, late>>
+
+\* ... after which the only thing the server may still do with the connection is close it
+TruncClose(c) ==
+    /\ TCP /\ trunc[c] /\ cst[c] = "open"
+    /\ cst' = [cst EXCEPT ![c] = "closed"]
+    /\ H([a |-> "Close", c |-> c])
+    /\ UNCHANGED <<lst, cl, pend, part, rpc, nread, dl, fired, cctx, qc, qst, wr, ng, stalled, trunc, wat, late>>
 
 WriteFail(q) ==
     /\ qst[q] = "replied" /\ (IF TCP THEN cst[qc[q]] = "closed" ELSE lst # "open")
     /\ qst' = [qst EXCEPT ![q] = "failed"]
     /\ H([a |-> "WriteFail", q |-> q, c |-> qc[q]])
-    /\ UNCHANGED <<lst, cst, cl, pend, part, rpc, nread, dl, fired, cctx, qc, wr, ng, late>>
+    /\ UNCHANGED <<lst, cst, cl, pend, part, rpc, nread, dl, fired, cctx, qc, wr, ng, stalled, trunc, wat, late>>
 
 \* nil payload: tcp closes the connection at once, udp does nothing
 Abort(q) ==
@@ -260,33 +302,33 @@ Abort(q) ==
     /\ IF TCP /\ cst[qc[q]] = "open" /\ DEV # "nil_keeps_open"
          THEN cst' = [cst EXCEPT ![qc[q]] = "closed"] /\ H([a |-> "Close", c |-> qc[q]])
          ELSE UNCHANGED <<cst, hist>>
-    /\ UNCHANGED <<lst, cl, pend, part, rpc, nread, dl, fired, cctx, qc, wr, ng, late>>
+    /\ UNCHANGED <<lst, cl, pend, part, rpc, nread, dl, fired, cctx, qc, wr, ng, stalled, trunc, wat, late>>
 
 ServeReturn ==
     /\ IF TCP THEN lst = "closed" ELSE rpc[1] = "exit"
     /\ lst' = "returned"
     /\ rpc' = IF TCP THEN rpc ELSE [rpc EXCEPT ![1] = "done"]
     /\ H([a |-> "ServeReturn"])
-    /\ UNCHANGED <<cst, cl, pend, part, nread, dl, fired, cctx, qc, qst, wr, ng, late>>
+    /\ UNCHANGED <<cst, cl, pend, part, nread, dl, fired, cctx, qc, qst, wr, ng, stalled, trunc, wat, late>>
 
 Env ==
-    \/ \E c \in Conns : Accept(c) \/ SendRest(c) \/ Garbage(c) \/ HalfClose(c) \/ TimerFire(c)
+    \/ \E c \in Conns : Accept(c) \/ SendRest(c) \/ Garbage(c) \/ HalfClose(c) \/ TimerFire(c) \/ Stall(c) \/ Unstall(c)
     \/ \E c \in Conns, q \in Ids : Send(c, q) \/ SendPart(c, q)
     \/ \E q \in Ids, k \in {"reply", "nil"} : Release(q, k)
     \/ ListenerClose
 
 Server ==
     \/ \E c \in Conns : Arm(c) \/ ArmClosed(c) \/ ReadQuery(c) \/ SkipBad(c) \/ ReadBad(c)
-                          \/ ReaderCancel(c) \/ ReaderClose(c) \/ ReaderDone(c)
+                          \/ ReaderCancel(c) \/ ReaderClose(c) \/ ReaderDone(c) \/ TruncClose(c)
     \/ \E q \in Ids : Invoke(q) \/ Write(q) \/ WriteFail(q) \/ Abort(q)
     \/ ServeReturn
 
-Next == Env \/ Server
+Next == Env \/ Server \/ \E q \in Ids : PartialWrite(q)
 
 Spec == Init /\ [][Next]_vars
 FairSpec == Spec /\ WF_vars(Server)
               /\ \A c \in Conns : WF_vars(ReadBad(c)) /\ WF_vars(ReaderClose(c)) /\ WF_vars(ReaderCancel(c))
-                                  /\ WF_vars(ReaderDone(c)) /\ WF_vars(Arm(c) \/ ArmClosed(c)) /\ WF_vars(ReadQuery(c))
+                                  /\ WF_vars(ReaderDone(c)) /\ WF_vars(TruncClose(c)) /\ WF_vars(Arm(c) \/ ArmClosed(c)) /\ WF_vars(ReadQuery(c))
               /\ \A q \in Ids : WF_vars(Invoke(q)) /\ WF_vars(Write(q) \/ WriteFail(q)) /\ WF_vars(Abort(q))
               /\ WF_vars(ServeReturn)
 
@@ -322,10 +364,14 @@ CtxNotEarly == \A c \in Conns : cctx[c] => rpc[c] \in {"exit", "done"}
 \* a finished connection goroutine leaves a closed connection and a cancelled context
 DoneIsClean == \A c \in Conns : (TCP /\ rpc[c] = "done") => (cst[c] = "closed" /\ cctx[c])
 
-SCInv == OneReply /\ NoReadAfterGiveUp /\ DeadlineClass /\ NilCloses /\ CtxNotEarly /\ DoneIsClean
+\* the byte stream a client sees is whole frames, possibly followed by ONE truncated frame at the very end
+FramesWhole == \A c \in Conns : ~wat[c]
+
+SCInv == FramesWhole /\ OneReply /\ NoReadAfterGiveUp /\ DeadlineClass /\ NilCloses /\ CtxNotEarly /\ DoneIsClean
 
 \* liveness (FairSpec)
-ReplyLive == \A q \in Ids : (qst[q] \in {"replied", "nil"}) ~> (qst[q] \in {"written", "failed", "aborted"})
+ReplyLive == \A q \in Ids : (qst[q] \in {"replied", "nil"}) ~> (qst[q] \in {"written", "failed", "aborted"} \/ (qc[q] # 0 /\ stalled[qc[q]]))
+TruncCloses == \A c \in Conns : trunc[c] ~> (cst[c] = "closed")
 TimeoutCloses == \A c \in Conns : (fired[c] /\ rpc[c] = "read") ~> (cst[c] = "closed")
 EofCloses == \A c \in Conns : (TCP /\ cl[c] = "eof" /\ cst[c] = "open") ~> (cst[c] = "closed")
 ClosedCancels == \A c \in Conns : (TCP /\ cst[c] = "closed") ~> (cctx[c] /\ rpc[c] = "done")
@@ -339,5 +385,5 @@ ServerQuiet == ~ENABLED Server
 Emit == (Len(hist) = GenLen) => PrintT(<<"BEH", ToJson([steps |-> hist])>>)
 GenBound == Len(hist) <= GenLen
 
-ViewNoHist == <<lst, cst, cl, pend, part, rpc, nread, dl, fired, cctx, qc, qst, wr, ng, late>>
+ViewNoHist == <<lst, cst, cl, pend, part, rpc, nread, dl, fired, cctx, qc, qst, wr, ng, stalled, trunc, wat, late>>
 =============================================================================
